@@ -282,11 +282,10 @@ Proof.
 Qed.
 
 Lemma v0d_field_stmt_pool sh i f :
-  v0d_unsafe sh = false ->
   nth_error (d_fields sh) i = Some f ->
   incl (flat_map s_loads (v0d_field_stmt sh i f)) (v0d_pool sh).
 Proof.
-  intros HU Hn. assert (Hf : In f (d_fields sh)) by (eapply nth_error_In; eauto).
+  intros Hn. assert (Hf : In f (d_fields sh)) by (eapply nth_error_In; eauto).
   unfold v0d_field_stmt.
   set (guard := if dskip_on (df_skip f) then _ else _).
   assert (HG : (match df_key f with DKey _ | DPath _ => true | _ => false end = true) ->
@@ -327,13 +326,7 @@ Proof.
         apply incl_app; [apply obj_attr_loads|].
         apply incl_cons; [|apply incl_cons; [exact (v0d_pool_skip sh i f Hn)|apply incl_nil_l]].
         apply v0d_pool_closure. apply (v0d_clo_field sh i f _ Hn). unfold v0d_field_closure.
-        apply in_or_app. left. rewrite HD.
-        assert (HS : dskip_on (d_skip_defaults_if sh) = false).
-        { unfold v0d_unsafe in HU. apply andb_false_iff in HU as [HU|HU]; [exact HU|].
-          exfalso. assert (existsb (fun f => is_catch (df_key f) && df_has_default f) (d_fields sh) = true).
-          { apply existsb_exists. exists f. split; [exact Hf|]. now rewrite EK, HD. }
-          congruence. }
-        rewrite HS. now left.
+        apply in_or_app. left. rewrite HD, EK. cbn [is_catch]. rewrite orb_true_r. now left.
       * cbn. apply incl_cons; [exact (v0d_pool_skip sh i f Hn)|apply incl_nil_l].
     + unfold call at 1. cbn [e_loads]. rewrite eapps_loads. cbn [flat_map e_loads app].
       rewrite app_nil_r. apply obj_attr_loads.
@@ -362,9 +355,9 @@ Proof.
   intro H. apply poolv_binds. unfold v0d_binds0. rewrite H. apply in_or_app. right. apply in_or_app. left. now left.
 Qed.
 
-Lemma v0d_body_pool sh : v0d_unsafe sh = false -> incl (s_loads (v0d_body sh)) (v0d_pool sh).
+Lemma v0d_body_pool sh : incl (s_loads (v0d_body sh)) (v0d_pool sh).
 Proof.
-  intro HU. unfold v0d_body. rewrite sseq_loads. repeat rewrite flat_map_app. split_app.
+  unfold v0d_body. rewrite sseq_loads. repeat rewrite flat_map_app. split_app.
   - destruct (d_pre sh) eqn:E; [|apply incl_nil_l]. smp.
     apply incl_cons; [apply v0d_pool_closure, v0d_clo_pre; exact E|].
     apply incl_cons; [apply v0d_pool_param; cbn [map]; find_in|apply incl_nil_l].
@@ -413,28 +406,12 @@ Proof.
     apply in_or_app. left. unfold v0d_closure. do 7 (apply in_or_app; right). now left.
 Qed.
 
-Theorem v0_dump_closed sh : v0d_unsafe sh = false -> closedb [] (v0_dump_fn sh) = true.
+Theorem v0_dump_closed sh : closedb [] (v0_dump_fn sh) = true.
 Proof.
-  intro HU. destruct (v0d_binds_ok sh) as [H1 H2].
+  destruct (v0d_binds_ok sh) as [H1 H2].
   apply (closed_from_poolv (v0d_binds0 sh) (v0d_bvar sh)); auto.
-  - now apply v0d_body_pool.
+  - apply v0d_body_pool.
   - apply v0d_header_ok.
-Qed.
-
-(* the unsafe shape: a catch-all field with a default under Meta.skip_defaults_if *)
-Definition v0d_witness : v0d_shape :=
-  {| d_fields := [ {| df_name := S "x"; df_has_default := false; df_key := DKey (S "x"); df_skip := SkNone |};
-                   {| df_name := S "extra"; df_has_default := true; df_key := DCatchAll; df_skip := SkNone |} ];
-     d_env := false; d_pre := false; d_meta_skip := SkNone; d_skip_defaults_if := SkInline; d_tag := None |}.
-
-Theorem v0_dump_refuted :
-  v0d_unsafe v0d_witness = true /\ closedb [] (v0_dump_fn v0d_witness) = false /\
-  In (S "_default_1") (free_names (v0_dump_fn v0d_witness)) /\
-  ~ In (S "_default_1") (allowed [] (v0_dump_fn v0d_witness)).
-Proof.
-  split; [reflexivity|]. split; [vm_compute; reflexivity|]. split.
-  - apply mem_str_In. vm_compute. reflexivity.
-  - intro H. apply mem_str_In in H. vm_compute in H. discriminate.
 Qed.
 
 (* ======================================================================== *)
